@@ -212,19 +212,29 @@ impl StringLiteral<&'_ str> {
 fn unescape_string_literal(mut s: &str) -> String {
     let mut string = String::new();
     while let Some(i) = s.bytes().position(|b| b == b'\\') {
-        let c = match s.as_bytes()[i + 1] {
-            b'\'' => '\'',
-            b'"' => '"',
-            b'\\' => '\\',
-            b'/' => '/',
-            b'n' => '\n',
-            b'r' => '\r',
-            b't' => '\t',
-            _ => panic!("Invalid escape"),
-        };
         string.push_str(&s[..i]);
+        let rest = &s[i + 1..];
+        let escaped = match rest.chars().next() {
+            Some(c) => c,
+            // A trailing backslash has already been reported by the lexer
+            None => {
+                s = rest;
+                break;
+            }
+        };
+        let c = match escaped {
+            '\'' => '\'',
+            '"' => '"',
+            '\\' => '\\',
+            '/' => '/',
+            'n' => '\n',
+            'r' => '\r',
+            't' => '\t',
+            // An unknown escape code has already been reported by the lexer, keep the character
+            c => c,
+        };
         string.push(c);
-        s = &s[i + 2..];
+        s = &rest[escaped.len_utf8()..];
     }
     string.push_str(s);
 
@@ -528,6 +538,10 @@ impl<'input> Tokenizer<'input> {
             // TODO: Unicode escape codes
             Some((end, b)) => {
                 let ch = self.chars.chars.as_str_suffix().restore_char(&[b]);
+                // The lexer steps byte by byte, skip the rest of a multi-byte character
+                while self.test_lookahead(|b| (b & 0xC0) == 0x80) {
+                    self.bump();
+                }
                 self.recover(start, end, UnexpectedEscapeCode(ch), b)
                     .map(|s| s.value)
             }
@@ -849,8 +863,16 @@ impl<'input> Iterator for Tokenizer<'input> {
                 ch if is_operator_byte(ch) => Some(Ok(self.operator(start))),
                 ch if (ch as char).is_whitespace() => continue, // TODO Unicode whitespace
 
+                // A continuation byte left over from a multi-byte character that was already
+                // reported as an error
+                ch if (ch & 0xC0) == 0x80 => continue,
+
                 ch => {
                     let ch = self.chars.chars.as_str_suffix().restore_char(&[ch]);
+                    // The lexer steps byte by byte, skip the rest of a multi-byte character
+                    while self.test_lookahead(|b| (b & 0xC0) == 0x80) {
+                        self.bump();
+                    }
                     let end = self.next_loc();
                     if let Err(err) = self.recover(start, end, UnexpectedChar(ch), ()) {
                         return Some(Err(err));
